@@ -10,8 +10,7 @@ pub open spec fn cont_wf(c: Continuation) -> bool { cont_stack(c).wf() && cont_s
 '''
 
 C5 = ['C05']
-UNITS = [{
-    'name': 'continuation',
+UNITS = [{    'name': 'continuation',
     'file': 'src/vm/continuation.rs',
     'wrap': [],
     'uses_types': ['VCell', 'Heap', 'GlobalEnvironment', 'Continuation'],
